@@ -44,7 +44,8 @@ ASSUMES = [
     "theorems on disparity_range assume an odd window (the matching-cost schema enforces it) not larger than the coarse "
     "map; a valid-flagged pixel whose disparity is NaN counts as invalid (invalid_ind of the code)",
 ]
-TRUSTED = ["cst.PANDORA_MSK_PIXEL_INVALID is read from the imported package and given to the model as data"]
+TRUSTED = ["cst.PANDORA_MSK_PIXEL_INVALID is read from the imported package and given to the model as data",
+           "Gen/BlockLoops.v produced by translator/gen_block_loops.py (ast transliteration of the double block loop: split expressions, statements on the running offsets where they stand, slice bounds, arrays resolved to np.zeros / np.full_like / np.copy / sliding_window view / parameter expression; fail closed) and its reading as a program by Lib/BlockSkeleton.v exec (total arrays, slice writes neither clamped nor shape-checked)"]
 
 
 # ---------------------------------------------------------------- case generation
